@@ -332,6 +332,9 @@ type dreq =
 | RInt
 | RBool
 | RStr
+| RSub
+
+val adds_dim : dreq -> bool
 
 type seqkind =
 | KList
@@ -399,6 +402,8 @@ val set_registry : state -> regent list -> state
 val set_adict : state -> (char list * operand) list -> state
 
 val set_strict : state -> bool -> state
+
+val set_kind : state -> ckind -> state
 
 val set_names : state -> char list list -> state
 
